@@ -114,3 +114,22 @@ Proof. exact m2s_direct_exact. Qed.
 From NW Require Import Gen.LockLint.
 Theorem C17_source_no_lossy_map_lookup : NW.Gen.LockLint.guard_across_await = [].
 Proof. reflexivity. Qed.
+
+(* ---------- interleaved semantics (Model/Conc.v): every schedule of suspended requests, disconnects, time-outs ---------- *)
+From Coq Require Import List NArith String.
+From NW Require Import Model.Conc Proofs.ConcDefs Proofs.ConcEv Proofs.ConcInv Proofs.ConcSmall Proofs.ConcMore Proofs.ConcProgress Proofs.ConcSource Gen.ConcFlags.
+Import ListNotations.
+Local Open Scope N_scope.
+
+Theorem C17_conc_direct_exact :
+  forall (cf : ccfg) (es : list ev) (targets : list user) (payload : N),
+    let s := cstate_after cf es in
+    let r := cstep cf s (EDirect targets payload) in
+    fst r = s /\
+    (forall o : cout, In o (snd r) -> exists c : conn, o = ODirect c payload) /\
+    (forall c : conn,
+     In (ODirect c payload) (snd r) <-> (exists u : user, In u targets /\ In c (reg (cg s) u))) /\
+    (forall (c : conn) (u : user),
+     In u targets -> In c (reg (cg s) u) -> cuser (cg s) c = Some u) /\ 
+    NoDup (snd r).
+Proof. exact conc_direct_exact. Qed.
